@@ -953,6 +953,46 @@ def run(chk):
     gotr = tb.get("Region", [])
     tr_clause("updateValue:Region", uv, len(gotr) == 1 and gotr[0].startswith("%s.update_region_var(" % stp_) and gotr[0].endswith(", %s.keyword, %s.number, %s)" % (np_, np_, vp_)) and "%s.fip_region" % np_ in gotr[0], gotr, "st.update_region_var(<region set of the node>, node.keyword, node.number, value)")
 
+    # ---- C09.phase: the history rates a well reports per phase
+    r_ph = chk.rule("C09.phase", "Well::injection_rate / Well::production_rate (the observed rates behind the ...H history vectors): a query for phase P on an injector answers 0 unless the injector's type is the type of the same name (WATER/WATER, OIL/OIL, GAS/GAS), for each of the three phases; production_rate returns the control's water_rate / oil_rate / gas_rate for WATER / OIL / GAS; an undefined value reads as 0", floor=6)
+    wx = chk.facts(["opm/input/eclipse/Schedule/Well/Well.cpp"])
+    ir = [f for f in wx.fns if f["n"] == "injection_rate" and (f.get("cls") or "").endswith("Opm::Well") and f.get("body")]
+    pr = [f for f in wx.fns if f["n"] == "production_rate" and (f.get("cls") or "").endswith("Opm::Well") and f.get("body")]
+    if len(ir) != 1 or len(pr) != 1:
+        raise core.AnalysisBroken("Well::injection_rate / production_rate not found")
+    ir, pr = ir[0], pr[0]
+    php = [p_["n"] for p_ in ir["params"] if p_["t"].endswith("Phase")][0]
+    seen_ph = {}
+    for n in stmt_list(ir["body"]):
+        if n["k"] != "If" or not any(x["k"] == "Return" for x in walk(n["then"])):
+            continue
+        cj = []
+
+        def conj(c):
+            c = strip(c)
+            if c.get("k") == "Bin" and c.get("op") == "&&":
+                conj(c["c"][0])
+                conj(c["c"][1])
+            else:
+                cj.append(c)
+        conj(n["cond"])
+        ph = [strip(c["c"][1]).get("n") for c in cj if c.get("k") == "Bin" and c.get("op") == "==" and show(strip(c["c"][0])) == php and strip(c["c"][1]).get("d") == "Enum"]
+        ty = [(c.get("op"), strip(c["c"][1]).get("n")) for c in cj if c.get("k") == "Bin" and c.get("op") in ("!=", "==") and "InjectorType" in (strip(c["c"][1]).get("q") or "")]
+        if len(ph) == 1:
+            ret = [show(x.get("e")) for x in walk(n["then"]) if x["k"] == "Return"]
+            seen_ph[ph[0]] = (ty, ret, n["l"])
+    for P in ("WATER", "OIL", "GAS"):
+        ty, ret, ln = seen_ph.get(P, ([], [], ir["l"]))
+        chk.instance(r_ph, "injection_rate:" + P, sample=dict(phase=P, type_test=ty, returns=ret))
+        if ty != [("!=", P)] or ret not in (["0"], ["0.0"]):
+            chk.violation(r_ph, "injection_rate:" + P, "Well::injection_rate: a query for phase %s returns %s under the injector-type test %s; required: 0 when the type is not InjectorType::%s - otherwise the %s history vectors (W%sIRH, G%sITH, ...) show the rate of wells that inject another fluid" % (P, ret, ty, P, P.lower(), P[0], P[0]), ir["file"], ln)
+    tbp, cndp = switch_table(pr)
+    for P, mem in (("WATER", "water_rate"), ("OIL", "oil_rate"), ("GAS", "gas_rate")):
+        got = tbp.get(P, [])
+        chk.instance(r_ph, "production_rate:" + P, sample=dict(phase=P, returns=got))
+        if len(got) != 1 or not re.search(r"\.%s\)" % mem, got[0]) or any(m_ in got[0] for m_ in ("water_rate", "oil_rate", "gas_rate") if m_ != mem):
+            chk.violation(r_ph, "production_rate:" + P, "Well::production_rate: phase %s returns `%s`; required the control's %s" % (P, got, mem), pr["file"], pr["l"])
+
     # SummaryState: elapsed time and the route of UDQ results into the per-category slots
     ss = chk.facts(["opm/input/eclipse/Schedule/SummaryState.cpp"])
     ue = [f for f in ss.fns if f["n"] == "update_elapsed" and f.get("body")]
